@@ -571,3 +571,87 @@ class ClosedShellSmeared:
 register(Obligation(name="C08.scf.closed_shell_polarised_path.smeared_step", prop=PROP, engine="B", bounded=True, run=ClosedShellSmeared(), budget={"quick": 300, "thorough": 600},
                     functions=["eminus.minimizer:scf_step", "eminus.tools:get_Efermi", "eminus.occupations:Occupations.smear", "eminus.energies:get_Eentropy", "eminus.energies:get_E"],
                     doc="BOUNDED: closed-shell orbitals with Fermi smearing through both spin treatments: same Fermi level and energies (entropy term included), fillings halved, weighted k-points"))
+
+
+# ------------------------------------------------------------------------------------------------
+# spin-exchange symmetry of orbital-dependent quantities with DIFFERENT fillings in the two channels
+# ------------------------------------------------------------------------------------------------
+
+
+class SwapOrbitalQuantities:
+    """BOUNDED native: an open-shell state (fillings [1, 1] / [1, 0], two weighted k-points) and the same state with the two spin channels exchanged
+    (fillings, orbitals and trial unoccupied orbitals): spin densities, single-orbital densities, kinetic-energy densities, orthonormalised unoccupied
+    orbitals, unoccupied eigenvalues and (with PySCF) the meta-GGA outputs are the exchanged ones; every energy contribution is unchanged."""
+
+    def case(self, seed):
+        import dataclasses
+
+        import eminus
+        from eminus import SCF, Atoms
+        from eminus.dft import get_epsilon_unocc, get_n_single, get_n_spin, orth, orth_unocc
+        from eminus.energies import get_E
+        from eminus.gga import get_tau
+
+        eminus.config.backend = "numpy"
+        eminus.config.verbose = "critical"
+        rng = np.random.default_rng(seed)
+        try:
+            import pyscf  # noqa: F401
+
+            xc = ":MGGA_X_TPSS,:MGGA_C_TPSS"
+        except ImportError:
+            xc = "pbe"
+        out = []
+        W0 = Z0 = None
+        for swap in (False, True):
+            at = Atoms("Li", [[0.1, 0.2, 0.3]], ecut=4, a=[[6.0, 0.3, 0.1], [0.2, 6.5, 0.4], [0.5, 0.1, 7.0]], unrestricted=True)
+            at.set_k([[0.0, 0.0, 0.0], [0.2, 0.1, 0.05]], [0.4, 0.6])
+            scf = SCF(at, xc=xc, verbose="critical")
+            a = scf.atoms
+            f = np.array([[[1.0, 1.0], [1.0, 0.0]]] * 2)
+            if W0 is None:
+                W0 = [rng.standard_normal((2, len(a.Gk2c[ik]), 2)) + 1j * rng.standard_normal((2, len(a.Gk2c[ik]), 2)) for ik in range(2)]
+                Z0 = [rng.standard_normal((2, len(a.Gk2c[ik]), 3)) + 1j * rng.standard_normal((2, len(a.Gk2c[ik]), 3)) for ik in range(2)]
+            a.occ._f = f[:, ::-1].copy() if swap else f.copy()
+            W = [w[::-1].copy() for w in W0] if swap else [w.copy() for w in W0]
+            Z = [z[::-1].copy() for z in Z0] if swap else [z.copy() for z in Z0]
+            scf.W = W
+            scf._precompute()
+            get_E(scf)
+            Y = orth(a, W)
+            d = dict(n_spin=np.asarray(get_n_spin(a, Y)), n_single=np.asarray(get_n_single(a, Y)), tau=np.asarray(get_tau(a, Y)),
+                     D=[np.asarray(x) for x in orth_unocc(a, Y, Z)], eps_unocc=np.asarray(get_epsilon_unocc(scf, W, Z, **scf._precomputed)),
+                     vxc=np.asarray(scf.vxc), vtau=None if scf.vtau is None else np.asarray(scf.vtau),
+                     E={fl.name: float(getattr(scf.energies, fl.name)) for fl in dataclasses.fields(scf.energies)})
+            out.append(d)
+        a_, b_ = out
+        diffs = {
+            "n_spin": float(np.abs(a_["n_spin"] - b_["n_spin"][::-1]).max()),
+            "n_single": float(np.abs(a_["n_single"] - b_["n_single"][::-1]).max()),
+            "tau": float(np.abs(a_["tau"] - b_["tau"][::-1]).max()),
+            "orth_unocc": float(max(np.abs(x - y[::-1]).max() for x, y in zip(a_["D"], b_["D"]))),
+            "eps_unocc": float(np.abs(a_["eps_unocc"] - b_["eps_unocc"][:, ::-1]).max()),
+            "vxc": float(np.abs(a_["vxc"] - b_["vxc"][::-1]).max()),
+        }
+        if a_["vtau"] is not None:
+            diffs["vtau"] = float(np.abs(a_["vtau"] - b_["vtau"][::-1]).max())
+        for k in a_["E"]:
+            diffs["E." + k] = abs(a_["E"][k] - b_["E"][k])
+        return max(diffs.values()), dict(xc=xc, diffs={k: v for k, v in diffs.items() if v > 1e-9} or dict(worst=max(diffs.values())))
+
+    def __call__(self, ob, tier, seed):
+        from pycv.framework import BOUNDED_OK
+
+        w, info = self.case(seed)
+        if not w <= 1e-9:
+            return Result(REFUTED, backend="native", witness=dict(seed=seed), replayed=True, replay_info=info, detail=f"exchanging the spin channels of an open-shell state does not exchange the outputs: {info}")
+        return Result(BOUNDED_OK, backend="native", detail=f"bounded: Li with fillings [1, 1] / [1, 0], two weighted k-points, {info['xc']}: densities, tau, unoccupied orbitals / eigenvalues, potentials exchanged and energies unchanged to {w:.1e}")
+
+    def replay(self, wit):
+        w, info = self.case(wit["seed"])
+        return bool(not w <= 1e-9), info
+
+
+register(Obligation(name="C08.swap.orbital_quantities_open_shell", prop=PROP, engine="B", bounded=True, run=SwapOrbitalQuantities(), budget={"quick": 300, "thorough": 600},
+                    functions=["eminus.dft:get_n_spin", "eminus.dft:get_n_single", "eminus.gga:get_tau", "eminus.dft:orth_unocc", "eminus.dft:get_epsilon_unocc", "eminus.energies:get_E"],
+                    doc="BOUNDED: exchanging the two spin channels of an open-shell state (different fillings) exchanges densities, tau, unoccupied orbitals / eigenvalues and potentials"))
